@@ -530,6 +530,9 @@ func schedAccount(c *fw.Ctx, x *sched.Explorer, name string) {
 	if st.Deadlines > 0 {
 		c.HarnessError("%s %s: %d executions hit the watchdog (first at schedule %v)", c.Prop, name, st.Deadlines, st.DeadlineAt)
 	}
+	if st.WarmStart {
+		c.Count("warm_start_scenarios", 1)
+	}
 	if st.Nondeterministic {
 		c.HarnessError("%s %s: replaying the default schedule gave a different execution (uncaptured nondeterminism)", c.Prop, name)
 	}
